@@ -15,6 +15,8 @@ impl Regex {
         assert!(re.starts_with('^'));
         let regex = regex::RegexBuilder::new(re)
             .case_insensitive(case_insensitive)
+            // file names may contain new line characters
+            .dot_matches_new_line(true)
             .build()?;
         let fixed_prefix = if case_insensitive {
             Self::get_fixed_prefix(re).to_lowercase()
